@@ -13,6 +13,7 @@
   property and is enforced by the harness with an a-priori bound.
 -/
 import Lattigo.Proofs.BGVProgram
+import Lattigo.Proofs.EncoderTRound
 import Mathlib.Tactic.NormNum.Prime
 
 namespace Lattigo.BGV.C05
@@ -257,6 +258,47 @@ theorem errors_deg0_op0 (c : Cfg) (relin : Bool) (a b r : Reg) (lvl : Nat) (ha :
     ∧ accReg c relin a b r lvl = .error .err := by
   refine ⟨?_, ?_, ?_⟩ <;> simp [tensorStd, tensorSI, accReg, ha]
 
+/-! ## the inverse of the scale: `ring.ModExp(scale, t − 2, t)` (Fermat) -/
+
+/-- the two transcriptions of `ring.ModExp` (`NTT.modExp`, used by the encoder model of C07, and `BGV.powMod`,
+    used by the evaluator model) are the same function -/
+theorem modExp_eq_powMod (x e m : Nat) : NTT.modExp x e m = powMod x e m := by
+  have h : ∀ (f x e r : Nat), NTT.modExp.go m f x e r = powModAux f x e m r := by
+    intro f
+    induction f with
+    | zero => intro x e r; rfl
+    | succ f ih =>
+      intro x e r
+      unfold NTT.modExp.go powModAux
+      by_cases h0 : e = 0
+      · simp [h0]
+      · simp only [h0, if_false]; exact ih _ _ _
+  exact h 64 (x % m) e (1 % m)
+
+/-- hence `val` (what C05's registers decode to) multiplies by exactly the factor `DecodeRingT` uses -/
+theorem inv_eq_scaleInv (t s : Nat) : inv t s = EncoderT.scaleInv t s := (modExp_eq_powMod s (t - 2) t).symm
+
+/-- **modExp_fermat**: for every prime `t < 2^64` and every `s` not divisible by `t`,
+    `s · ModExp(s, t−2, t) ≡ 1 (mod t)` — no longer a hypothesis anywhere in C05 / C07. -/
+theorem modExp_fermat (t s : Nat) (ht : t.Prime) (h64 : t < 2 ^ 64) (hs : ¬ t ∣ s) :
+    s * NTT.modExp s (t - 2) t % t = 1 := EncoderT.modExp_fermat t s ht h64 hs
+
+theorem inv_mul (t s : Nat) (ht : t.Prime) (h64 : t < 2 ^ 64) (hs : ¬ t ∣ s) : s * inv t s % t = 1 := by
+  rw [inv_eq_scaleInv]; exact EncoderT.scaleInv_spec t s ht h64 hs
+
+/-- decoding a register built from decoded slots returns them: `val (ofDecoded v) = v mod t` -/
+theorem val_ofDecoded (t level degree scale : Nat) (v : List Nat) (ht : t.Prime) (h64 : t < 2 ^ 64)
+    (hs : ¬ t ∣ scale) : val t (Reg.ofDecoded t level degree scale v) = v.map (· % t) := by
+  have h := inv_mul t scale ht h64 hs
+  unfold val Reg.ofDecoded vscale
+  simp only [List.map_map]
+  apply List.map_congr_left
+  intro x _
+  simp only [Function.comp]
+  rw [Nat.mod_mul_mod, mul_assoc, Nat.mul_mod, h, mul_one, Nat.mod_mod]
+
+example : 7 * inv 257 7 % 257 = 1 ∧ val 257 (Reg.ofDecoded 257 2 1 7 [5, 258]) = [5, 1] := by decide +kernel
+
 /-! ## abstract phase identities (link to ciphertexts): phase(ct) = T⁻¹·Δ·m + e over any commutative ring -/
 
 theorem phase_add {α : Type} [CommRing α] (Tinv Δ m1 m2 e1 e2 : α) :
@@ -303,6 +345,11 @@ end Lattigo.BGV.C05
 #print axioms Lattigo.BGV.C05.sub_higher_degree_modelled
 #print axioms Lattigo.BGV.C05.mta_scalar_meta
 #print axioms Lattigo.BGV.C05.errors_deg0_op0
+#print axioms Lattigo.BGV.C05.modExp_eq_powMod
+#print axioms Lattigo.BGV.C05.inv_eq_scaleInv
+#print axioms Lattigo.BGV.C05.modExp_fermat
+#print axioms Lattigo.BGV.C05.inv_mul
+#print axioms Lattigo.BGV.C05.val_ofDecoded
 #print axioms Lattigo.BGV.C05.phase_add
 #print axioms Lattigo.BGV.C05.phase_mul
 #print axioms Lattigo.BGV.C05.phase_mul_noise
